@@ -231,7 +231,7 @@ def rnd_value(rng, depth=2):
     if r < 0.42:
         return ("num", rng.choice(["0.5", "-2.25", "1e3", "3.0", "+4", "-0.0", "10.", ".5", "6E-2"]))
     if r < 0.6:
-        return ("str", rng.choice(["", "V", "m/s", "hello world", "a b  c", "x:y", "{}", "//nc", "/* nc */", "ü",
+        return ("str", rng.choice(["", "V", "m/s", "hello world", "a b  c", "x:y", "{}", "//nc", "/* nc */", "ü", "\u00b0C", "\u03a9", "\u20ac/h", "\U0001f600", "\u4e2d",
                                    'rim 17\\"', '\\"lead', 'mid\\"dle', 'back\\\\', 'tab\\t', " pad ", "'q'"]))
     if r < 0.8 or depth == 0:
         return ("ident", rng.choice(WORDS))
@@ -289,7 +289,7 @@ def gen_desc(rng, max_decls=8, used=None):
             for j in range(rng.randint(1, 5)):
                 params = []
                 if rng.random() < 0.3:
-                    params.append(("unit", [rng.choice([("str", "V"), ("str", "m/s^2"), ("ident", "kg"), ("str", ""), ("str", 'in\\"'),
+                    params.append(("unit", [rng.choice([("str", "V"), ("str", "m/s^2"), ("ident", "kg"), ("str", ""), ("str", 'in\\"'), ("str", "\u00b0C"), ("str", "\u03bcm"),
                                                         ("str", " deg ")])]))
                 if rng.random() < 0.25:
                     params.append(("range", [("num", rng.choice(["0.0", "-1.5", "1e-3"])), ("num", rng.choice(["1.0", "99.75", "2e6"]))]))
